@@ -62,7 +62,9 @@ def main():
             dst = os.path.join(ws, sub, "zz_seed_demo_test.go")
             shutil.copy(demo, dst)
             pat = "^(" + "|".join(tests) + ")$"
-            rc, o = run(["go", "test", "-vet=off", "-count=1", "./" + sub, "-run", pat], cwd=ws)
+            race = ["-race"] if os.environ.get("SEED_RACE") == "1" or "-race" in open(os.path.join(d, "README.md")).read() else []
+            res["demo_race"] = bool(race)
+            rc, o = run(["go", "test", "-vet=off", "-count=1"] + race + ["./" + sub, "-run", pat], cwd=ws)
             res["demo_fails_with_patch"] = rc != 0
             res["demo_tests"] = tests
             res["demo_dir"] = sub
@@ -72,7 +74,7 @@ def main():
             # without the patch
             run(["git", "apply", "-R", "--whitespace=nowarn", patch], cwd=ws)
             shutil.copy(demo, dst)
-            rc, o = run(["go", "test", "-vet=off", "-count=1", "./" + sub, "-run", pat], cwd=ws)
+            rc, o = run(["go", "test", "-vet=off", "-count=1"] + race + ["./" + sub, "-run", pat], cwd=ws)
             res["demo_passes_without_patch"] = rc == 0
             if rc != 0:
                 res["demo_output_without_patch"] = o[-400:]
@@ -86,6 +88,8 @@ def main():
         ctl = os.path.join(ws, ".empty_control.json")
         open(ctl, "w").write('[{"name":"seed","subs":[],"expect":[]}]')
         caught = {}
+        if os.environ.get("SEED_CHECKER") == "0":
+            props = []
         for pr in props:
             rc, o = run(["/verif/bin/sqljsonlint", "-mode", "control", "-prop", pr, "-control", ctl, "-index", "0", "-repo", ws, "-verif", "/verif"], timeout=600)
             try:
